@@ -244,6 +244,26 @@ fn make_case_once(seed: u64, run: u64, r: &mut Rng) -> Option<Case> {
         spec.kind = "cut_in_last_statement".to_owned();
         spec.lines = (last + 1..=lines.len() + 1).collect();
         spec.target = Some(last);
+    } else if kind < 84 {
+        // a jump to nowhere that sits in a macro body: the offending token, as far as the source
+        // file goes, is the (outermost) use of that macro
+        let nested = r.chance(40);
+        let mut defs = vec!["macro zz_in() -> inc si jmp zz_nowhere inc di <-".to_owned()];
+        if nested {
+            defs.push("macro zz_out(q) -> mov dx, q zz_in() <-".to_owned());
+        }
+        for (k, d) in defs.iter().enumerate() {
+            lines.insert(start_line + k, d.clone());
+        }
+        let start_line = start_line + defs.len();
+        let at = r.urange(start_line + 1, lines.len());
+        let indent = if r.chance(50) { " ".repeat(r.urange(1, 8)) } else { String::new() };
+        let body = if nested { "zz_out(5)".to_owned() } else { "zz_in()".to_owned() };
+        lines.insert(at, format!("{}{}", indent, body));
+        spec.kind = "undefined_label_in_macro".to_owned();
+        spec.lines = vec![at + 1];
+        spec.col = Some((indent.len(), indent.len() + body.len()));
+        spec.target = Some(at);
     } else if kind < 90 {
         // a jump to a label that is defined nowhere
         let at = r.urange(start_line + 1, lines.len());
@@ -422,7 +442,7 @@ pub fn judge(case: &Case, ex: &Exec) -> Vec<Violation> {
         }
     }
     // (O3) independent offset -> (line, column) computation on the assembler's own error location
-    if spec.kind != "undefined_label" {
+    if !spec.kind.starts_with("undefined_label") {
         let re = regex::Regex::new(r";.*\n?").unwrap();
         let unc = re.replace_all(&src, "\n").to_string();
         if let Some(off) = direct_error_offset(&unc) {
